@@ -157,6 +157,14 @@ def _short_ty(ty):
     return ty
 
 
+ALIASES = {}      # short callee name -> canonical role name (set by the check driver from roles.aliases)
+
+
+def _short(c):
+    n = c.split('::')[-1]
+    return ALIASES.get(n, n)
+
+
 def sdesc_operand(B, o, depth=0):
     if o['k'] == 'const':
         return B.norm_operand(o).replace('const:', '')
@@ -167,11 +175,20 @@ def sdesc_operand(B, o, depth=0):
 
 
 def sdesc_place(B, p, depth=0):
-    # `?` unwrapping: (branch(X) as Continue).0  ==>  X?
-    if len(p['p']) == 2 and p['p'][0]['k'] == 'downcast' and p['p'][0]['variant'] == 'Continue' and p['p'][1]['k'] == 'field':
+    # Ok-path payloads: (branch(X) as Continue).0 and (X as Ok).0 both mean "the value of X when it succeeded"  ==>  X?
+    if len(p['p']) >= 2 and p['p'][0]['k'] == 'downcast' and p['p'][0]['variant'] in ('Continue', 'Ok') and p['p'][1]['k'] == 'field':
         ds = B.whole_defs(p['l'])
-        if len(ds) == 1 and ds[0][0] == 'call' and (ds[0][3].get('callee') or '').endswith('Try::branch'):
-            return sdesc_operand(B, ds[0][3]['args'][0], depth) + '?'
+        if p['p'][0]['variant'] == 'Continue' and len(ds) == 1 and ds[0][0] == 'call' and (ds[0][3].get('callee') or '').endswith('Try::branch'):
+            base = sdesc_operand(B, ds[0][3]['args'][0], depth) + '?'
+        else:
+            base = sdesc_local(B, p['l'], depth) + '?'
+        s = base
+        for e in p['p'][2:]:
+            if e['k'] == 'field':
+                s = '%s.%s' % (s, e.get('name', e['i']))
+            elif e['k'] == 'downcast':
+                s = '%s as %s' % (s, e['variant'])
+        return s
     s = sdesc_local(B, p['l'], depth)
     for e in p['p']:
         if e['k'] == 'field':
@@ -199,7 +216,7 @@ def sdesc_local(B, l, depth=0):
         d = ds[0]
         if d[0] == 'call':
             t = d[3]
-            c = (t.get('callee') or callee_of(t) or '?').split('::')[-1]
+            c = _short(t.get('callee') or callee_of(t) or '?')
             if c.startswith('box_assume_init_into_vec'):
                 return 'vec!'
             if c in ('deref', 'deref_mut', 'as_ref', 'as_mut', 'borrow', 'branch', 'into', 'from', 'to_owned', 'clone', 'to_path_buf', 'as_slice', 'as_str', 'must_use') and t['args']:
@@ -227,7 +244,7 @@ def sdesc_local(B, l, depth=0):
 
 
 def skey_call(B, t):
-    c = (t.get('callee') or callee_of(t) or '?').split('::')[-1]
+    c = _short(t.get('callee') or callee_of(t) or '?')
     return '%s(%s)' % (c, ','.join(sdesc_operand(B, a) for a in t['args'][:3]))
 
 
